@@ -11,6 +11,8 @@ import (
 	"github.com/dtn7/dtn7-go/pkg/routing"
 	"github.com/dtn7/dtn7-go/verif/ev"
 	"github.com/dtn7/dtn7-go/verif/gen"
+	"github.com/dtn7/dtn7-go/verif/vrt"
+	"github.com/dtn7/dtn7-go/verif/vsync"
 	"github.com/dtn7/dtn7-go/verif/vtime"
 )
 
@@ -69,8 +71,8 @@ func c20Reference(g c20Graph) [][]int64 {
 			switch {
 			case i == j:
 				d[i][j] = 0
-			case g.Arcs[i*n+j] == 1:
-				d[i][j] = 0
+			case g.Arcs[i*n+j] == 1 || g.Arcs[i*n+j] == 4:
+				d[i][j] = 0 // 4: an own link that was lost 20 s ago and came back 5 s ago - live again
 			case g.Arcs[i*n+j] >= 2:
 				d[i][j] = g.lossAgo(i, j)
 			default:
@@ -123,7 +125,9 @@ func c20RunGraph(n *nhNode, g c20Graph) (key, desc string, entries int) {
 	}
 	var ol []ownLoss
 	for j := 1; j < g.N; j++ {
-		if g.Arcs[j] >= 2 {
+		if g.Arcs[j] == 4 {
+			ol = append(ol, ownLoss{j, 20000})
+		} else if g.Arcs[j] >= 2 {
 			ol = append(ol, ownLoss{j, g.lossAgo(0, j)})
 		}
 	}
@@ -131,6 +135,13 @@ func c20RunGraph(n *nhNode, g c20Graph) (key, desc string, entries int) {
 	for _, l := range ol {
 		vtime.Set(ago(l.at))
 		d.ReportPeerDisappeared(n.peer(fmt.Sprintf("n%d", l.j)))
+	}
+	// returning neighbours: the link is live again since 5 s (after every loss instant used above except the 3 s one)
+	for j := 1; j < g.N; j++ {
+		if g.Arcs[j] == 4 {
+			vtime.Set(ago(5000))
+			d.ReportPeerAppeared(n.peer(fmt.Sprintf("n%d", j)))
+		}
 	}
 	vtime.Set(T)
 	// link-state data of the other nodes: first an older announcement naming only one of the links (if there
@@ -191,7 +202,7 @@ func c20RunGraph(n *nhNode, g c20Graph) (key, desc string, entries int) {
 			return "next-hop-not-a-neighbour", fmt.Sprintf("graph %v: next hop for n%d is %v", g.Arcs, j, nh), entries
 		}
 		first := int64(0)
-		if g.Arcs[k] >= 2 {
+		if g.Arcs[k] >= 2 && g.Arcs[k] != 4 {
 			first = g.lossAgo(0, k)
 		}
 		if first+ref[k][j] != ref[0][j] {
@@ -349,6 +360,28 @@ func c20AllGraphs(n int, states []int, maxLost int) []c20Graph {
 	return out
 }
 
+// c20Returning: 4-node graphs in which one or both of the node's own links were lost and came back (state 4),
+// combined with every state of the other own link and of the two second-hop links.
+func c20Returning() []c20Graph {
+	var out []c20Graph
+	for _, a := range []int{4, 1, 2, 3} {
+		for _, b := range []int{4, 1, 2, 3} {
+			if a != 4 && b != 4 {
+				continue
+			}
+			for _, c := range []int{0, 1, 2, 3} {
+				for _, d := range []int{0, 1, 2, 3} {
+					g := c20Graph{N: 4, Arcs: make([]int, 16)}
+					g.Arcs[1], g.Arcs[2] = a, b
+					g.Arcs[1*4+3], g.Arcs[2*4+3] = c, d
+					out = append(out, g)
+				}
+			}
+		}
+	}
+	return out
+}
+
 func c20Families() []c20Graph {
 	var out []c20Graph
 	for n := 5; n <= 8; n++ {
@@ -416,6 +449,7 @@ func runC20(r *ev.Run, thorough bool) int {
 	}
 	graphs = append(graphs, c20Families()...)
 	graphs = append(graphs, c20Diamonds()...)
+	graphs = append(graphs, c20Returning()...)
 	var orders [][]int
 	for _, p := range permutations(4) {
 		orders = append(orders, p)
@@ -457,6 +491,20 @@ func runC20(r *ev.Run, thorough bool) int {
 			r.Sample(map[string]interface{}{"graph": tasks[i].Graphs[len(tasks[i].Graphs)/2]})
 		}
 	})
+	// E3: two updates of one node handled at once, all schedules up to the preemption bound
+	sbound := 2
+	if thorough {
+		sbound = 4
+	}
+	ssum := exploreSchedules("c20updates", nil, sbound, 20000)
+	r.Add("sched_executions", int64(ssum.Execs))
+	r.Add("sched_distinct_outcomes", int64(len(ssum.Outcomes)))
+	if ssum.Capped {
+		r.Capped("schedule exploration of two concurrent link-state updates stopped at 20000 executions")
+	}
+	for _, v := range ssum.Viol {
+		r.Violation("C20/concurrent:"+v.Key, "sched", v.Desc, schedTask{Scenario: "c20updates", Prefix: v.Prefix, Single: true})
+	}
 	r.Add("graphs", int64(ng))
 	r.Add("routing_table_entries_checked", int64(entries))
 	r.Add("update_orders", int64(oc))
@@ -486,8 +534,47 @@ func runC20(r *ev.Run, thorough bool) int {
 }
 
 func replayC20(kind string, c json.RawMessage) (string, bool) {
-	if kind == "history" {
-		return nhReplayCmd(c)
+	if kind == "history" || kind == "sched" {
+		return nhReplayAny(kind, c)
 	}
 	return "graphs are enumerated deterministically: re-run the check (the violating graph is in the artefact)", false
+}
+
+// ---- E3: two link-state updates of one node handled at the same time ----
+// NotifyNewBundle is reached from the Core's handler goroutine (receptions) and from agents' goroutines
+// (SendBundle): every schedule of two such calls must leave the update with the newer timestamp stored.
+
+func init() { schedScenarios["c20updates"] = schedScenario{Setup: c20UpdatesSetup} }
+
+func c20UpdatesSetup(arg json.RawMessage) (func(), func(vrt.Result) (string, string, string), func()) {
+	useVirtualClock()
+	n, err := newNhNode(nhConfig{Algo: "epidemic"})
+	if err != nil {
+		panic(err)
+	}
+	d := routing.VerifNewDTLSR(n.core, routing.DTLSRConfig{RecomputeTime: "30s", BroadcastTime: "30s", PurgeTime: "10m"})
+	now := bpv7.DtnTimeFromTime(VNow)
+	peersOld := map[bpv7.EndpointID]bpv7.DtnTime{gen.MustEID(c20Name(2)): 0}
+	peersNew := map[bpv7.EndpointID]bpv7.DtnTime{gen.MustEID(c20Name(2)): 0, gen.MustEID(c20Name(3)): 0}
+	older := c20LinkStateBundle(1, now-5000, peersOld, 1)
+	newer := c20LinkStateBundle(1, now-1000, peersNew, 2)
+	body := func() {
+		var wg vsync.WaitGroup
+		wg.Add(1)
+		vrt.Go("harness", func() {
+			defer wg.Done()
+			d.VerifLinkState(older)
+		})
+		d.VerifLinkState(newer)
+		wg.Wait()
+	}
+	judge := func(res vrt.Result) (obs, key, desc string) {
+		got, ok := d.VerifReceived()[gen.MustEID(c20Name(1))]
+		obs = fmt.Sprintf("stored=%v ts=%d links=%d", ok, got.Timestamp, len(got.Peers))
+		if !ok || got.Timestamp != now-1000 || len(got.Peers) != 2 {
+			return obs, "older-link-state-replaces-newer", fmt.Sprintf("two updates of n1 (timestamps %d and %d) were handled concurrently; stored afterwards: present=%v timestamp=%d with %d links - the newer one must win in every schedule", now-5000, now-1000, ok, got.Timestamp, len(got.Peers))
+		}
+		return obs, "", ""
+	}
+	return body, judge, func() { n.destroy() }
 }
